@@ -97,6 +97,10 @@ def c01_history(e1: int, p1: int, g1: int, e2: int, p2: int, g2: int, d: int, v:
             w.kernel.external_kill(w.kernel.alive_pids('f')[0])
         else:
             w.boot([wa])
+        if S.get('pidwrap'):
+            w.kernel.next_pid = 300        # the kernel's pid counter has wrapped: every later process gets a SMALLER pid than the running ones
+        if var == 'max_age_var':
+            w.randint_value = 10           # clamped to max_age_variance by the stub: the largest stagger
         if S.get('dmax', 0) > 0 and d > 0:
             w.kernel.injections.append({'at_call': w.kernel.calls + d, 'victim': ('nth', v),
                                         'status': core.status_signal(9)})
@@ -113,13 +117,16 @@ def c01_history(e1: int, p1: int, g1: int, e2: int, p2: int, g2: int, d: int, v:
             w.kernel.injections = [i for i in w.kernel.injections if i.get('done')]   # faults belong to the history, not to the settling phase
             sc.settle(checks=3)
             if w.clock.tripped:
-                return rt.skip()        # a blocked loop is C05's subject
+                # no event of this menu overlaps a non-exclusive kill (the region of the listed C05 finding): a daemon that blocks here
+                # never converges
+                rt.note('the daemon blocked (%r): the count cannot converge', sc.trace)
+                return rt.verdict(False)
             ok = _converged(w, wa)
             # after a completed restart / non-hup reload every live worker was started after the request
             for (e, req) in sc.reqs:
                 if var == 'send_hup' and e in (scen.EV_RELOAD, scen.EV_RELOAD_SEQ):
                     continue            # a send_hup watcher reloads by SIGHUP: the workers stay (excluded by the statement)
-                if var == 'max_age':
+                if var in ('max_age', 'max_age_var'):
                     continue            # expiry replaces workers on its own
                 if e in (scen.EV_RESTART, scen.EV_RELOAD, scen.EV_RELOAD_SEQ, scen.EV_RELOAD_TERM) \
                         and req.status == 'ok' and wa.is_active():
@@ -138,6 +145,19 @@ def c01_history(e1: int, p1: int, g1: int, e2: int, p2: int, g2: int, d: int, v:
             if var == 'max_age':
                 after = before          # max_age expiry is "something changes": no fixpoint is claimed
                 ok = _converged(w, wa) and ok
+            if var == 'max_age_var':
+                # nobody may be terminated for old age before max_age (+ stagger): a supervisor signal to a worker younger than
+                # max_age that no request asked for is a broken fixpoint
+                asked = any(e in (scen.EV_DECR, scen.EV_SETNP, scen.EV_RESTART, scen.EV_RELOAD, scen.EV_RELOAD_SEQ, scen.EV_RELOAD_TERM)
+                            for e, _r in sc.reqs)
+                if not asked:
+                    for s_ in w.kernel.signal_log:
+                        kp = w.kernel.procs.get(s_['pid'])
+                        if kp is not None and kp.tag == 'a' and s_['sig'] != 0 and s_['target'] == 'alive' and s_['t'] - kp.t_spawn < 3 - 1e-6:
+                            rt.note('worker %d was signalled (%d) at age %.2f s although max_age is 3 s', s_['pid'], s_['sig'], s_['t'] - kp.t_spawn)
+                            ok = False
+                            break
+                after = before
             if before != after:
                 rt.note('converged state is not a fixpoint: spawn/signal log %s -> %s', before, after)
                 ok = False
@@ -290,6 +310,10 @@ def plan(tier):
             sh.append({'e1': e, 'K': 1, 'n0': 2, 'beh': 2, 'var': 'gt0'})
         for e in (scen.EV_RELOAD, scen.EV_RELOAD_SEQ, scen.EV_XKILL, scen.EV_DECR):
             sh.append({'e1': e, 'K': 1, 'n0': 2, 'beh': 0, 'var': 'send_hup'})
+        for e in (scen.EV_RELOAD, scen.EV_RELOAD_SEQ, scen.EV_RESTART, scen.EV_INCR):
+            sh.append({'e1': e, 'K': 1, 'n0': 2, 'beh': 0, 'pidwrap': True, 'gaps': 'two'})
+        for e in (scen.EV_TIME, scen.EV_CHECK, scen.EV_XKILL, scen.EV_INCR):
+            sh.append({'e1': e, 'K': 2 if e == scen.EV_TIME else 1, 'n0': 2, 'beh': 0, 'var': 'max_age_var', 'gaps': 'two', 'pmin': 0, 'pmax': 1})
         for e in (scen.EV_XKILL, scen.EV_EXIT, scen.EV_CHECK):
             sh.append({'e1': e, 'K': 2, 'n0': 2, 'beh': 0, 'front_raises': True, 'gaps': 'two', 'pmin': -1, 'pmax': 1})
         for e in (scen.EV_DECR, scen.EV_SETNP, scen.EV_RELOAD, scen.EV_RELOAD_SEQ):
@@ -305,6 +329,8 @@ def plan(tier):
             sh.append({'e1': e, 'K': 2, 'n0': 1, 'beh': 0, 'singleton': True})
             sh.append({'e1': e, 'K': 2, 'n0': 2, 'beh': 0, 'dmax': 12})
             sh.append({'e1': e, 'K': 2, 'n0': 2, 'beh': 0, 'front_raises': True})
+            sh.append({'e1': e, 'K': 2, 'n0': 2, 'beh': 0, 'pidwrap': True})
+            sh.append({'e1': e, 'K': 2, 'n0': 2, 'beh': 0, 'var': 'max_age_var', 'gaps': 'two'})
             for kf in (0, 1, 2):
                 sh.append({'e1': e, 'K': 2, 'n0': 2, 'beh': 0, 'killfail': kf, 'gaps': 'two'})
                 sh.append({'e1': e, 'K': 1, 'n0': 2, 'beh': 2, 'killfail': kf})
@@ -318,7 +344,7 @@ def plan(tier):
         Cond('c01_history', shards=sh, budget=150 if q else 1500, twins=2,
              bounds={'e1': 'S: shard key over the 11-event menu', 'e2': 'S[0,10]', 'p1,p2': 'R[-2,3] (quick K=2: [-1,1]) (nb / numprocesses / victim / exit status)',
                      'g1,g2': 'S{now, 1 turn, 2 turns, quiescence} (quick K=2: {now, quiescence})', 'd': 'R[0,dmax] kernel call of an injected SIGKILL death',
-                     'v': 'S{0,1} victim', 'var': 'S: configuration variant {default, graceful_timeout 0, send_hup, max_age, stop_children}', 'front_raises': 'S: a higher-priority neighbour watcher whose management raises on every check', 'killfail': 'S: the n-th signal delivery after the first event begins fails once with EPERM', 'n0': 'S{1,2,3}', 'beh': 'S{obey, obey after 0.15 s, ignore, alternating}'},
+                     'v': 'S{0,1} victim', 'var': 'S: configuration variant {default, graceful_timeout 0, send_hup, max_age, max_age 3 s with variance 2 s, stop_children}', 'pidwrap': 'S: the pid counter wraps after boot (later processes get smaller pids)', 'front_raises': 'S: a higher-priority neighbour watcher whose management raises on every check', 'killfail': 'S: the n-th signal delivery after the first event begins fails once with EPERM', 'n0': 'S{1,2,3}', 'beh': 'S{obey, obey after 0.15 s, ignore, alternating}'},
              smoke=[({'e1': scen.EV_DECR, 'K': 2, 'n0': 2}, dict(e1=4, p1=1, g1=0, e2=3, p2=2, g2=3, d=0, v=0))]),
         Cond('c01_step', shards=step_sh, budget=150 if q else 1200, twins=2,
              bounds={'np': 'S[0,%d]' % (2 if q else 3), 'm': 'S[0,%d] table entries' % (2 if q else 3),
